@@ -180,6 +180,9 @@ Fixpoint eval_py (r : env) (a : pyast) (fuel : nat) {struct a} : pyresult :=
           match lookup n fs with Some v => Val v | None => Raise AttrErr end
       | Val (VType en) =>
           if mem_text n (enum_lits r en) then Val (VEnum en n) else Raise AttrErr
+      | Val (VEnum en _) =>
+          (* CPython >= 3.11: the members of an enumeration are reachable from a member *)
+          if mem_text n (enum_lits r en) then Val (VEnum en n) else Raise AttrErr
       | Val _ => Raise AttrErr
       end
   | PSubscript c i =>
